@@ -210,6 +210,12 @@ func init() {
 	})
 	reg("BytesEq", func(fr *frame, args []value) value { return elemsEq(args[0].([]value), args[1].([]value)) })
 	reg("StrEq", func(fr *frame, args []value) value { return strEq(args[0], args[1]) })
+	reg("SetMapOrder", func(fr *frame, args []value) value {
+		fr.px().mapReverse = args[0].(bool)
+		fr.px().w.ex.noteAssumption("map iteration order: each compared run uses ascending resp. descending key order (two of the n! orders)")
+		return nil
+	})
+	reg("Repeats", func(fr *frame, args []value) value { return int(2) })
 	reg("Symbolic", func(fr *frame, args []value) value { return true })
 	reg("Note", func(fr *frame, args []value) value {
 		res := fr.px().w.ex.res
